@@ -442,7 +442,14 @@ func (r resolverQuery) parsePackageJSON(inputPath string) *packageJSON {
 
 				// Wildcard patterns require more expensive matching
 				if hadWildcard {
-					packageJSON.sideEffectsRegexps = append(packageJSON.sideEffectsRegexps, regexp.MustCompile(re))
+					// The pattern comes from the file, so it may not be a valid regular
+					// expression (e.g. if it contains text that isn't valid UTF-8)
+					if compiled, err := regexp.Compile(re); err == nil {
+						packageJSON.sideEffectsRegexps = append(packageJSON.sideEffectsRegexps, compiled)
+					} else {
+						r.log.AddID(logger.MsgID_PackageJSON_InvalidSideEffects, logger.Warning, &tracker, logger.Range{Loc: itemJSON.Loc},
+							"Invalid pattern in array for \"sideEffects\"")
+					}
 					continue
 				}
 
